@@ -298,6 +298,9 @@ class Interp:
                     if st_ == want and (tr_ is None or ty_head(tr_) == ty_head(m.group(2))):
                         return self.eval_const_fn(st, v2, frame)
             return Obj('assoc_const', ty=ty, trait=m.group(2), name=m.group(3))
+        # a named constant item of the crate: evaluate its MIR body
+        cf = self.consts.get(t)
+        if isinstance(cf, Func): return self.eval_const_fn(st, cf, frame)
         # enum unit variant written as const?  else treat as fn item / opaque
         return Obj('item', path=t)
 
@@ -311,6 +314,17 @@ class Interp:
                     self.store(st, fr, s_[1], self.rvalue(st, fr, s_[2], dty))
             if blk.term[0] == 'goto': blk = cf.blocks[blk.term[1]]; continue
             if blk.term[0] == 'return': return self.load(st, fr, ('local', '_0'))
+            if blk.term[0] == 'call':
+                # const fn calls inside constant items: only those with a registered (pure) python evaluator
+                _, dest, callee, argops, targets = blk.term
+                for rx, pyfn in getattr(self, 'const_calls', []):
+                    if rx.search(callee):
+                        val = pyfn(self, st, [self.operand(st, fr, o) for o in argops])
+                        if dest is not None: self.store(st, fr, dest, val)
+                        blk = cf.blocks[targets['return']]; break
+                else:
+                    raise Stuck('const fn call in constant item without evaluator: ' + callee[:80])
+                continue
             raise Stuck('const body terminator ' + blk.term[0])
         raise Stuck('const body too long')
 
